@@ -14,6 +14,7 @@ From Coq Require Import ZArith Floats.SpecFloat Bool List String Ascii.
 Require Import Blots.Num Blots.Outcome Blots.gen.Builtins Blots.Ast Blots.NumText.
 Require Import Blots.gen.NumGrammar.
 Require Import Blots.proofs.NumText Blots.proofs.NumTextStr Blots.proofs.NumTextFloat Blots.proofs.NumTextRT Blots.proofs.NumTextRef Blots.proofs.NumTextDigits Blots.proofs.NumTextJson.
+Require Import Blots.proofs.RadixWide Blots.proofs.RadixWideRT.
 Import ListNotations.
 Open Scope string_scope.
 Open Scope Z_scope.
@@ -233,6 +234,186 @@ Check C16_radix_literal_ge_2p63_refuted :
 Print Assumptions C16_radix_literal_ge_2p63_refuted.
 Print Assumptions closed_marker.
 
+(* ---- F25 repaired (fixes/C16-radix-literal-range.diff; model: NumText.v 3b', literal_value_rf true —
+   the model the LITERAL correspondence runs whenever the built crate accepts the F25 witnesses).
+   parse_radix_digits folds the digits into a u128 accumulator, and once it is full only counts the
+   remaining digits in `scale` (a power of two, exact, +inf past 2^1023) and ORs "non-zero" into a sticky
+   bit; result ((acc | sticky) as f64) * scale.  For EVERY digit string — no bound on its length — that is
+   num_of_Z v, the double nearest to the integer v the digits denote (ties to even; +inf from
+   2^1024 - 2^970 on, like the decimal path): the sticky-bit truncation does not change the rounding
+   (proofs/RadixWide.v: round-to-odd at >= 124 bits, then Flocq's round_N_odd). *)
+Theorem C16_hex_literal_value_fixed :
+  forall sp body c cl v,
+    remove_char "_" body = String c cl ->
+    radix_val 16 (String c cl) 0 = Some v ->
+    literal_value_rf true sp ("0x" ++ body) = Some (num_of_Z v).
+Proof. exact hex_literal_value_fixed. Qed.
+Check C16_hex_literal_value_fixed :
+  forall sp body c cl v,
+    remove_char "_" body = String c cl ->
+    radix_val 16 (String c cl) 0 = Some v ->
+    literal_value_rf true sp ("0x" ++ body) = Some (num_of_Z v).
+Print Assumptions C16_hex_literal_value_fixed.
+Print Assumptions closed_marker.
+
+Theorem C16_bin_literal_value_fixed :
+  forall sp body c cl v,
+    remove_char "_" body = String c cl ->
+    radix_val 2 (String c cl) 0 = Some v ->
+    literal_value_rf true sp ("0b" ++ body) = Some (num_of_Z v).
+Proof. exact bin_literal_value_fixed. Qed.
+Check C16_bin_literal_value_fixed :
+  forall sp body c cl v,
+    remove_char "_" body = String c cl ->
+    radix_val 2 (String c cl) 0 = Some v ->
+    literal_value_rf true sp ("0b" ++ body) = Some (num_of_Z v).
+Print Assumptions C16_bin_literal_value_fixed.
+Print Assumptions closed_marker.
+
+(* the explicitly signed token +0x… / +0b… (a leading - is always a prefix negation and never reaches the arm) *)
+Theorem C16_plus_radix_literal_value_fixed :
+  forall sp body c cl v,
+    remove_char "_" body = String c cl ->
+    (radix_val 16 (String c cl) 0 = Some v -> literal_value_rf true sp ("+0x" ++ body) = Some (num_of_Z v)) /\
+    (radix_val 2 (String c cl) 0 = Some v -> literal_value_rf true sp ("+0b" ++ body) = Some (num_of_Z v)).
+Proof. exact plus_radix_literal_value_fixed. Qed.
+Check C16_plus_radix_literal_value_fixed :
+  forall sp body c cl v,
+    remove_char "_" body = String c cl ->
+    (radix_val 16 (String c cl) 0 = Some v -> literal_value_rf true sp ("+0x" ++ body) = Some (num_of_Z v)) /\
+    (radix_val 2 (String c cl) 0 = Some v -> literal_value_rf true sp ("+0b" ++ body) = Some (num_of_Z v)).
+Print Assumptions C16_plus_radix_literal_value_fixed.
+Print Assumptions closed_marker.
+
+(* the conversion routine itself, both radices, and the errors it keeps *)
+Theorem C16_parse_radix_digits_value :
+  forall radix s v,
+    radix = 2 \/ radix = 16 -> s <> EmptyString ->
+    radix_val radix s 0 = Some v -> parse_radix_digits s radix = Some (num_of_Z v).
+Proof. exact parse_radix_digits_correct. Qed.
+Check C16_parse_radix_digits_value :
+  forall radix s v,
+    radix = 2 \/ radix = 16 -> s <> EmptyString ->
+    radix_val radix s 0 = Some v -> parse_radix_digits s radix = Some (num_of_Z v).
+Print Assumptions C16_parse_radix_digits_value.
+Print Assumptions closed_marker.
+
+Theorem C16_radix_literal_fixed_rejects :
+  forall sp body,
+    (remove_char "_" body = EmptyString \/ radix_val 16 (remove_char "_" body) 0 = None ->
+     literal_value_rf true sp ("0x" ++ body) = None) /\
+    (remove_char "_" body = EmptyString \/ radix_val 2 (remove_char "_" body) 0 = None ->
+     literal_value_rf true sp ("0b" ++ body) = None).
+Proof. exact radix_literal_fixed_rejects. Qed.
+Check C16_radix_literal_fixed_rejects :
+  forall sp body,
+    (remove_char "_" body = EmptyString \/ radix_val 16 (remove_char "_" body) 0 = None ->
+     literal_value_rf true sp ("0x" ++ body) = None) /\
+    (remove_char "_" body = EmptyString \/ radix_val 2 (remove_char "_" body) 0 = None ->
+     literal_value_rf true sp ("0b" ++ body) = None).
+Print Assumptions C16_radix_literal_fixed_rejects.
+Print Assumptions closed_marker.
+
+(* radixfix = false is the pinned model of the theorems above, definitionally *)
+Theorem C16_radixfix_false_is_pinned :
+  forall sp s, literal_value_rf false sp s = literal_value sp s
+           /\ parse_numexpr_rf false sp s = parse_numexpr sp s
+           /\ read_source_rf false sp s = read_source sp s.
+Proof. exact (fun sp s => conj (literal_value_rf_false sp s) (conj (parse_numexpr_rf_false sp s) (read_source_rf_false sp s))). Qed.
+Check C16_radixfix_false_is_pinned :
+  forall sp s, literal_value_rf false sp s = literal_value sp s
+           /\ parse_numexpr_rf false sp s = parse_numexpr sp s
+           /\ read_source_rf false sp s = read_source sp s.
+Print Assumptions C16_radixfix_false_is_pinned.
+Print Assumptions closed_marker.
+
+(* the F25 witnesses on the repaired model *)
+Theorem C16_radix_literal_ge_2p63_fixed :
+  forall sp, parse_numexpr_rf true sp "0xFFFFFFFFFFFFFFFF" = PExpr (ENum (num_of_Z (2 ^ 64)))
+          /\ parse_numexpr_rf true sp "0x8000000000000000" = PExpr (ENum (num_of_Z (2 ^ 63)))
+          /\ parse_numexpr_rf true sp "0b1000000000000000000000000000000000000000000000000000000000000000"
+             = PExpr (ENum (num_of_Z (2 ^ 63)))
+          /\ parse_numexpr_rf true sp "0x20000000000000000000000000000000000000000000000001"
+             = PExpr (ENum (num_of_Z (2 ^ 197))).
+Proof. exact radix_literal_ge_2p63_fixed. Qed.
+Check C16_radix_literal_ge_2p63_fixed :
+  forall sp, parse_numexpr_rf true sp "0xFFFFFFFFFFFFFFFF" = PExpr (ENum (num_of_Z (2 ^ 64)))
+          /\ parse_numexpr_rf true sp "0x8000000000000000" = PExpr (ENum (num_of_Z (2 ^ 63)))
+          /\ parse_numexpr_rf true sp "0b1000000000000000000000000000000000000000000000000000000000000000"
+             = PExpr (ENum (num_of_Z (2 ^ 63)))
+          /\ parse_numexpr_rf true sp "0x20000000000000000000000000000000000000000000000001"
+             = PExpr (ENum (num_of_Z (2 ^ 197))).
+Print Assumptions C16_radix_literal_ge_2p63_fixed.
+Print Assumptions closed_marker.
+
+(* the round trips hold on the model of the tree at hand for BOTH literal conversions (radixfix = false
+   pinned, true repaired): printed numbers never reach the 0x / 0b arms, the repair leaves them intact *)
+Theorem C16_source_emission_reads_back_rf :
+  forall (radixfix : bool) (fmt_prec0 display : num -> string) (str_parse : string -> option num) (x : num),
+    valid_binary 53 1024 x = true -> is_finite x = true ->
+    parse_contract str_parse ->
+    (nfract_is_zero x && nltb (nabs x) c1e15 = true -> prec0_contract (fmt_prec0 x) x) ->
+    (nfract_is_zero x && nltb (nabs x) c1e15 = false -> display_contract (display x) x) ->
+    read_source_rf radixfix str_parse (print_num fmt_prec0 display x) = Ok x.
+Proof. exact source_reads_back_rf. Qed.
+Check C16_source_emission_reads_back_rf :
+  forall (radixfix : bool) (fmt_prec0 display : num -> string) (str_parse : string -> option num) (x : num),
+    valid_binary 53 1024 x = true -> is_finite x = true ->
+    parse_contract str_parse ->
+    (nfract_is_zero x && nltb (nabs x) c1e15 = true -> prec0_contract (fmt_prec0 x) x) ->
+    (nfract_is_zero x && nltb (nabs x) c1e15 = false -> display_contract (display x) x) ->
+    read_source_rf radixfix str_parse (print_num fmt_prec0 display x) = Ok x.
+Print Assumptions C16_source_emission_reads_back_rf.
+Print Assumptions closed_marker.
+
+Theorem C16_function_emission_reads_back_rf :
+  forall (radixfix : bool) (fmt_prec0 display : num -> string) (str_parse : string -> option num) (x : num),
+    valid_binary 53 1024 x = true -> is_finite x = true ->
+    parse_contract str_parse ->
+    (nfract_is_zero x && nltb (nabs x) c1e15 = true -> prec0_contract (fmt_prec0 x) x) ->
+    (nfract_is_zero x && nltb (nabs x) c1e15 = false -> display_contract (display x) x) ->
+    read_source_rf radixfix str_parse (emit_num fmt_prec0 display x) = Ok x.
+Proof. exact emission_reads_back_rf. Qed.
+Check C16_function_emission_reads_back_rf :
+  forall (radixfix : bool) (fmt_prec0 display : num -> string) (str_parse : string -> option num) (x : num),
+    valid_binary 53 1024 x = true -> is_finite x = true ->
+    parse_contract str_parse ->
+    (nfract_is_zero x && nltb (nabs x) c1e15 = true -> prec0_contract (fmt_prec0 x) x) ->
+    (nfract_is_zero x && nltb (nabs x) c1e15 = false -> display_contract (display x) x) ->
+    read_source_rf radixfix str_parse (emit_num fmt_prec0 display x) = Ok x.
+Print Assumptions C16_function_emission_reads_back_rf.
+Print Assumptions closed_marker.
+
+Theorem C16_formatter_reads_back_rf :
+  forall (radixfix : bool) (fmt_prec0 display : num -> string) (str_parse : string -> option num) (x : num) (w : option Z),
+    valid_binary 53 1024 x = true -> is_finite x = true ->
+    parse_contract str_parse ->
+    (nfract_is_zero x && nltb (nabs x) c1e15 = true -> prec0_contract (fmt_prec0 x) x) ->
+    (nfract_is_zero x && nltb (nabs x) c1e15 = false -> display_contract (display x) x) ->
+    read_source_rf radixfix str_parse (format_num fmt_prec0 display x w) = Ok x.
+Proof. exact formatter_reads_back_rf. Qed.
+Check C16_formatter_reads_back_rf :
+  forall (radixfix : bool) (fmt_prec0 display : num -> string) (str_parse : string -> option num) (x : num) (w : option Z),
+    valid_binary 53 1024 x = true -> is_finite x = true ->
+    parse_contract str_parse ->
+    (nfract_is_zero x && nltb (nabs x) c1e15 = true -> prec0_contract (fmt_prec0 x) x) ->
+    (nfract_is_zero x && nltb (nabs x) c1e15 = false -> display_contract (display x) x) ->
+    read_source_rf radixfix str_parse (format_num fmt_prec0 display x w) = Ok x.
+Print Assumptions C16_formatter_reads_back_rf.
+Print Assumptions closed_marker.
+
+Theorem C16_plain_text_value_rf :
+  forall radixfix sp s ip fp,
+    parse_contract sp -> all_digits ip = true -> ip <> "" -> all_digits fp = true ->
+    read_source_rf radixfix sp (sign_str s ++ plain ip fp) = Ok (rn_decimal s (digits_val (ip ++ fp) 0) (0 - slen fp)).
+Proof. exact read_source_rf_plain. Qed.
+Check C16_plain_text_value_rf :
+  forall radixfix sp s ip fp,
+    parse_contract sp -> all_digits ip = true -> ip <> "" -> all_digits fp = true ->
+    read_source_rf radixfix sp (sign_str s ++ plain ip fp) = Ok (rn_decimal s (digits_val (ip ++ fp) 0) (0 - slen fp)).
+Print Assumptions C16_plain_text_value_rf.
+Print Assumptions closed_marker.
+
 (* decimal / scientific / leading-dot literals: underscores are erased, everything else goes to
    str::parse::<f64> unchanged *)
 Theorem C16_decimal_literal_erasure : forall sp c r,
@@ -380,4 +561,12 @@ Example literal_examples :
   map (show_presult ref_str_parse) ["0xFF"; "0b1010"; "1_000_000"; "3.14e-2"; ".5"; "-.5e1"; "1e23"; "0x7fff_ffff_ffff_ffff"]
   = ["406fe00000000000"; "4024000000000000"; "412e848000000000"; "3fa013a92a305532";
      "3fe0000000000000"; "c014000000000000"; "44b52d02c7e14af6"; "43e0000000000000"].
+Proof. vm_compute. reflexivity. Qed.
+Example literal_examples_fixed :
+  map (show_presult_rf true ref_str_parse)
+      ["0xFF"; "0xFFFFFFFFFFFFFFFF"; "0x20000000000001"; "0x20000000000003"; "-0x1_0000_0000_0000_0000";
+       "0x100000000000008000000000000000000000000000000000001"; "0x1000000000000080000000000000000000000000000000000";
+       "0x"; "0b102"]
+  = ["406fe00000000000"; "43f0000000000000"; "4340000000000000"; "4340000000000002"; "c3f0000000000000";
+     "4c70000000000001"; "4bf0000000000000"; "REJECT"; "REJECT"].
 Proof. vm_compute. reflexivity. Qed.
